@@ -1405,6 +1405,8 @@ class Emitter:
                     raise NotImplementedError("lift: intrinsic %s in %s" % (base, self.f.name))
                 if base == 'llvm.fabs.f64': return ['%sfabs(%s);' % (asg, av[0])]
                 if base == 'llvm.nearbyint.f64': return ['%snearbyint(%s);' % (asg, av[0])]
+                if base == 'llvm.nearbyint.f32': return ['%snearbyintf(%s);' % (asg, av[0])]
+                if base == 'llvm.fabs.f32': return ['%sfabsf(%s);' % (asg, av[0])]
                 if base == 'llvm.rint.f64': return ['%srint(%s);' % (asg, av[0])]
                 if base == 'llvm.round.f64': return ['%sround(%s);' % (asg, av[0])]
                 if base == 'llvm.floor.f64': return ['%sfloor(%s);' % (asg, av[0])]
